@@ -193,6 +193,15 @@ Q_SHAPES = {
             [(2.0, 4.0), (0.0, 0.0)],
         ],
     ),
+    # mixed degrees in generic position (nothing on an axis, nothing symmetric about the origin)
+    "mixg": (
+        "ctrl",
+        [
+            [(1.0, 1.0), (5.0, 1.5)],
+            [(5.0, 1.5), (5.5, 4.0), (1.5, 4.5)],
+            [(1.5, 4.5), (1.0, 1.0)],
+        ],
+    ),
     # a boundary with an S-shaped cubic (inner control points on opposite sides of the chord)
     "scub": (
         "ctrl",
@@ -220,7 +229,7 @@ Q_SHAPES = {
     "ftri": ("verts", [(-1.3, -0.4), (1.4, -0.1), (0.1, 1.45)]),
     "fbar": ("verts", [(-1.5, -0.15), (1.5, -0.1), (1.5, 0.2), (-1.5, 0.15)]),
 }
-Q_ORDER = ["c16", "c8", "c4", "c5", "c16b", "c8s", "c8far", "lens", "blob", "rsq", "fsq", "ftri", "fbar", "scub", "dblh", "zeroh", "c16near", "lens2", "fcap"]
+Q_ORDER = ["c16", "c8", "c4", "c5", "c16b", "c8s", "c8far", "lens", "blob", "rsq", "fsq", "ftri", "fbar", "scub", "dblh", "zeroh", "c16near", "lens2", "fcap", "mixg"]
 
 
 # --------------------------------------------------------------------------- leaf data
@@ -402,6 +411,21 @@ def pc_leaves(name, variant="int"):
     return out
 
 
+def generic_map(p):
+    """An affine map with nothing special about it (positive determinant)."""
+    x, y = p
+    return (1.1 * x + 0.3 * y + 2.3, -0.2 * x + 0.9 * y + 1.7)
+
+
+def build_generic(name):
+    """Image of a Q leaf under generic_map, built from mapped control points."""
+    from . import lib
+
+    S = build_leaf(name)
+    ctrl = [[generic_map((float(p._x), float(p._y))) for p in sg.ctrlpoints] for sg in S.jordans[0].segments]
+    return lib.SimpleShape(lib.JordanCurve.from_ctrlpoints(ctrl))
+
+
 def build_cq(name):
     """Curved composite shapes built with the constructors."""
     from . import lib
@@ -432,6 +456,10 @@ def expr_id(e):
         return "moved(%s by %s,%s)" % (expr_id(e[1]), e[2], e[3])
     if t == "CQ":
         return "CQ." + e[1]
+    if t == "G":
+        return "affine(" + e[1] + ")"
+    if t == "SP":
+        return "split(" + expr_id(e[1]) + ")"
     if t == "PC":
         return "PC." + e[1] + "#" + (e[2] if len(e) > 2 else "int")
     if t == "V":
@@ -451,7 +479,7 @@ def expr_leaves(e):
     t = e[0]
     if t in ("L", "V", "PC", "WL"):
         return [e]
-    if t in ("MV", "CQ"):
+    if t in ("MV", "CQ", "G", "SP"):
         return [e]
     if t in ("E", "W"):
         return []
@@ -472,6 +500,15 @@ def lib_eval(e, trace=None):
         return build_warm_leaf(e[1])
     if t == "CQ":
         return build_cq(e[1])
+    if t == "G":
+        return build_generic(e[1])
+    if t == "SP":
+        # the same shape with redundant vertices: every boundary curve split at two places
+        X = lib_eval(e[1])
+        for j in rg.all_jordans(X):
+            n = len(j.segments)
+            j.split([0, n - 1], [F(1, 2), F(1, 3)])
+        return X
     if t == "MV":
         # an object with a past: used in operators and queries, then moved in place
         X = lib_eval(e[1])
@@ -520,6 +557,10 @@ def model_eval(e):
         return leaf_region(e[1])
     if t == "CQ":
         return rg.interpret(build_cq(e[1]))
+    if t == "G":
+        return rg.interpret(build_generic(e[1]))
+    if t == "SP":
+        return model_eval(e[1])
     if t == "MV":
         dx, dy = rg.ex(parse_num(e[2])), rg.ex(parse_num(e[3]))
         return model_eval(e[1]).image(lambda p: (p[0] + dx, p[1] + dy))
